@@ -610,8 +610,8 @@ class Filterbank(ABC):
                 data,
                 tfactor,
                 ffactor,
-                self.header.nchans,
                 nsamps_r,
+                self.header.nchans,
             )
             out_file.cwrite(write_ar)
         return outfile_name
